@@ -50,7 +50,9 @@ type RespSpec struct {
 	Size     int    `json:"n"`
 	HSet     int    `json:"h"` // 0 plain | 1 repeated Set-Cookie, empty value, mixed case | 2 Content-Encoding: gzip with a gzip body
 	Close    bool   `json:"cl,omitempty"`
-	Split    string `json:"split,omitempty"` // how the origin cuts the response into writes: "" one write | headbody | lines | bytes
+	Split    string `json:"split,omitempty"`    // how the origin cuts the response into writes: "" one write | headbody | lines | bytes
+	PauseMs  int    `json:"pause_ms,omitempty"` // the origin writes the head and Burst1 body bytes, stays silent this long, then writes the rest
+	Burst1   int    `json:"burst1,omitempty"`
 	Proto10  string `json:"p10,omitempty"`   // origin answers with HTTP/1.0: "1.0" (and closes) | "1.0ka" (Connection: keep-alive, stays open)
 	Interim2 bool   `json:"i2,omitempty"`    // two interim responses (100 Continue, 103) first
 	Location string `json:"loc,omitempty"`   // Location header (3xx): must be relayed, never followed
@@ -293,6 +295,10 @@ func buildReq(scID, conn, ex int, r ReqSpec) *builtReq {
 			add("Trailer", "X-Trail", false)
 			out.trailer = []h1harness.HeaderField{{Name: "X-Trail", Value: "t-" + tag(conn, ex)}}
 		}
+		if r.Framing == "chT2" { // two announced trailer fields
+			add("Trailer", "X-Checksum, X-Trail-B", false)
+			out.trailer = []h1harness.HeaderField{{Name: "X-Checksum", Value: "sum-" + tag(conn, ex)}, {Name: "X-Trail-B", Value: "b, c"}}
+		}
 		body = chunkedBody(r.Framing, out.payload)
 		body = append(body, "0\r\n"...)
 		for _, tf := range out.trailer {
@@ -323,6 +329,7 @@ func buildReq(scID, conn, ex int, r ReqSpec) *builtReq {
 type builtResp struct {
 	wire    []byte
 	segs    [][]byte
+	pauses  []time.Duration
 	status  int
 	headers []h1harness.HeaderField // end-to-end headers the origin sent
 	body    []byte                  // bytes of the body as the origin sent them (gzip bytes for hset 2)
@@ -433,6 +440,11 @@ func buildResp(scID, conn, ex int, method string, r RespSpec) *builtResp {
 	}
 	out.wire = sb.Bytes()
 	// how the origin cuts the response into write calls
+	if r.Burst1 > 0 && headLen+r.Burst1 < len(out.wire) {
+		out.segs = [][]byte{out.wire[:headLen+r.Burst1], out.wire[headLen+r.Burst1:]}
+		out.pauses = []time.Duration{0, time.Duration(r.PauseMs) * time.Millisecond}
+		return out
+	}
 	switch r.Split {
 	case "headbody":
 		out.segs = [][]byte{out.wire[:headLen], out.wire[headLen:]}
@@ -613,7 +625,7 @@ func (g *gen) add(s Scenario) {
 	switch {
 	case s.Family == "G_gzip_seq":
 		s.AlsoTCP = true
-	case s.Mode != "" || s.Family == "E_large" || s.Family == "H_early_response" || s.Family == "T_idle_timeout" || s.Family == "N_expect_without_100":
+	case s.Mode != "" || s.Family == "E_large" || s.Family == "H_early_response" || s.Family == "T_idle_timeout" || s.Family == "N_expect_without_100" || s.Family == "R_paused_bursts":
 	case g.thorough && strings.HasPrefix(s.Family, "D"):
 		s.AlsoTCP = i%307 == 0
 	case g.thorough: // sparser than quick: loopback sockets linger in TIME_WAIT and ephemeral ports are finite
@@ -1012,6 +1024,33 @@ func auditFamilies(g *gen, alpha []Exchange, thorough bool) {
 			g.add(Scenario{Family: "J_client_half_close", Conns: [][]Exchange{{b, a}}, Mode: "half_close"})
 		}
 	}
+	// Y: request trailers: 1 or 2 announced trailer fields whose values follow the last chunk, on the first and on
+	// the second request of a connection, sequential and pipelined
+	for _, f := range []string{"chT", "chT2"} {
+		for _, n := range []int{0, 1, 4097} {
+			for _, m := range []string{"POST", "PUT"} {
+				for _, abs := range []bool{true, false} {
+					r := ReqSpec{Method: m, Abs: abs, Proto: "1.1", Framing: f, Size: n, Seg: "one"}
+					g.add(single("Y_request_trailers", r, defaultResp))
+					for _, pipe := range []bool{false, true} {
+						g.add(Scenario{Family: "Y_request_trailers", Conns: [][]Exchange{{alpha[0], {r, defaultResp}}}, Pipelined: pipe})
+						g.add(Scenario{Family: "Y_request_trailers", Conns: [][]Exchange{{{r, defaultResp}, {r, alpha[1].Resp}}}, Pipelined: pipe})
+					}
+				}
+			}
+		}
+	}
+	// R: the origin sends its response in two bursts with a silence of 0 / 150 / 400 ms between them (real time:
+	// a handful of scenarios, run concurrently)
+	for _, pause := range []int{0, 150, 400} {
+		for _, b := range [][2]int{{20, 30}, {1000, 5000}, {4000, 30}, {4000, 5000}, {20, 5000}, {1000, 30}} {
+			for _, f := range []string{"cl", "close", "chunked"} {
+				p := RespSpec{Status: 200, Framing: f, Size: b[0] + b[1], PauseMs: pause, Burst1: b[0]}
+				g.add(single("R_paused_bursts", get, p))
+				g.add(Scenario{Family: "R_paused_bursts", Conns: [][]Exchange{{alpha[1], {get, p}}}})
+			}
+		}
+	}
 	// N: "Expect: 100-continue" towards an origin that never sends 100 Continue (the transport proceeds after
 	// its ExpectContinueTimeout of one second)
 	n100 := []string{"cl"}
@@ -1364,7 +1403,7 @@ func (o *originScript) handler(conn, idx int, req *h1harness.RawRequest, perr er
 	if r == nil {
 		return h1harness.Action{Write: [][]byte{[]byte("HTTP/1.1 599 Unknown Exchange\r\nContent-Length: 0\r\n\r\n")}}
 	}
-	return h1harness.Action{Write: r.segs, Close: r.close}
+	return h1harness.Action{Write: r.segs, Close: r.close, Pauses: r.pauses}
 }
 
 func (o *originScript) early(conn, idx int, head *h1harness.RawRequest) *h1harness.Action {
@@ -1934,7 +1973,10 @@ func checkOrigin(s *Scenario, log []*h1harness.RawRequest, parseErrs []string, o
 				}, nil)) == 0 {
 					out.trailersRelayed++
 				} else {
-					out.trailersDropped++ // permitted (RFC 9112 7.1.2): counted, not a violation
+					out.trailersDropped++
+					// trailer fields the client announced (Trailer header) and sent after the last chunk are
+					// end-to-end fields of the request: the origin must receive their values after the body
+					add("req_trailer_lost", fmt.Sprintf("client sent trailer fields %v after the last chunk, origin received %v", w.trailer, r.Trailers))
 				}
 			}
 			out.bodyBytes += int64(len(r.Body))
@@ -2169,12 +2211,12 @@ func main() {
 	rep.Coverage["distinct_nontrivial"] = rep.Counter("nontrivial")
 	rep.Coverage["distinct_outcomes"] = len(agg.Keys["outcomes"])
 	rep.Coverage["exhaustive"] = rep.Incomplete == ""
-	rep.Coverage["rule"] = "every scenario of the families A (request body: 7 methods x 2 target forms x {no Expect, Expect} x body framings x sizes x write segmentations), B (request head: methods x target forms x 9 header sets x {1.1,1.0,1.0+keep-alive} x Connection: close x {no body, 1 byte}), C (response: {GET,HEAD,POST} x client Accept-Encoding {absent,gzip,identity} x protocol x every origin response shape: status x framing x size x header set x Connection: close, bodiless statuses, 1xx-then-final), X (12 request shapes x all response shapes), D (all sequences over the 6x5 reduced exchange alphabet, sequential and pipelined), G (gzip then a second exchange), E (large bodies), F (3 concurrent connections / a stalled reader on one proxy), P (request 1 plus a prefix of request 2 in one write, cut at 7 points; response 1 must arrive before the rest is sent), T (SetTimeout(T), 4 requests separated by gaps < T/2 summing to > T; judged only if the measured gaps stayed below T/2) and, in the thorough tier, D2 (length 2 over the wide 8x8 alphabet), D3 (length 3 over the wide alphabet), D4 (length 4 over the reduced alphabet), all sequential and pipelined, S (origin response cut into several writes: head/body, one write per head line, byte by byte), I (2-3 client connections whose send/receive steps interleave in every scripted order), sizes around the 4096/8192/32768/65536 boundaries and the chunk-size lists [n], [1,n-1], [n-1,1], [1]*n, [4096...], [1,2,4,...], chunk extensions, trailers is executed once; scenarios are deduplicated after truncation at the first closing exchange. A scenario is non-trivial when it relays at least one non-empty body or more than one exchange."
+	rep.Coverage["rule"] = "every scenario of the families A (request body: 7 methods x 2 target forms x {no Expect, Expect} x body framings x sizes x write segmentations), B (request head: methods x target forms x 9 header sets x {1.1,1.0,1.0+keep-alive} x Connection: close x {no body, 1 byte}), C (response: {GET,HEAD,POST} x client Accept-Encoding {absent,gzip,identity} x protocol x every origin response shape: status x framing x size x header set x Connection: close, bodiless statuses, 1xx-then-final), X (12 request shapes x all response shapes), D (all sequences over the 6x5 reduced exchange alphabet, sequential and pipelined), G (gzip then a second exchange), E (large bodies), F (3 concurrent connections / a stalled reader on one proxy), Y (request trailers: 1 or 2 announced fields, judged), R (origin response in two bursts separated by 0/150/400 ms of silence), P (request 1 plus a prefix of request 2 in one write, cut at 7 points; response 1 must arrive before the rest is sent), T (SetTimeout(T), 4 requests separated by gaps < T/2 summing to > T; judged only if the measured gaps stayed below T/2) and, in the thorough tier, D2 (length 2 over the wide 8x8 alphabet), D3 (length 3 over the wide alphabet), D4 (length 4 over the reduced alphabet), all sequential and pipelined, S (origin response cut into several writes: head/body, one write per head line, byte by byte), I (2-3 client connections whose send/receive steps interleave in every scripted order), sizes around the 4096/8192/32768/65536 boundaries and the chunk-size lists [n], [1,n-1], [n-1,1], [1]*n, [4096...], [1,2,4,...], chunk extensions, trailers is executed once; scenarios are deduplicated after truncation at the first closing exchange. A scenario is non-trivial when it relays at least one non-empty body or more than one exchange."
 	rep.Coverage["bounds"] = fmt.Sprintf("tier %s: %d scenarios (families %v); sizes %s; sequences of length <= %d; <= 3 client connections; bodies <= %s", tier, total, fams,
 		map[string]string{"quick": "{0,1,4097} + 300001", "thorough": "{0,1,4095..4097,8191..8193,32767..32769,65535..65537} + 300001, 1 MiB+3, 4 MiB"}[tier], map[string]int{"quick": 2, "thorough": 4}[tier], map[string]string{"quick": "300001 B", "thorough": "4 MiB"}[tier])
 	rep.Assumptions = []string{
 		"in-memory connections model TCP (bounded buffers, EOF after buffered bytes, EPIPE on write to a closed peer); a deterministic subset of scenarios is re-run over loopback TCP and any difference in outcome is reported as a harness problem (coverage.mem_tcp_disagreements)",
-		"framing headers (Content-Length, Transfer-Encoding) and RFC 7230 6.1 hop-by-hop headers are not compared; bodies are compared after de-framing; header names are compared case-insensitively; headers added by the proxy/transport are allowed; request trailers may be dropped (RFC 9112 7.1.2) and are only counted",
+		"framing headers (Content-Length, Transfer-Encoding) and RFC 7230 6.1 hop-by-hop headers are not compared; bodies are compared after de-framing; header names are compared case-insensitively; headers added by the proxy/transport are allowed; announced request trailer fields must reach the origin with their values",
 		"a stalled exchange is recognised structurally (proxy and client both blocked in Read on the same connection with nothing in flight), confirmed over 3 polls; the hang deadline is 20 s",
 		"goroutine schedules inside net/http's Transport are not enumerated (free-running)",
 	}
